@@ -461,7 +461,14 @@ func gen(r *rng.R, sh *shadow, nextRID *uint64, malformed bool) op {
 		}
 		return op{K: "report", RID: x.ID, SID: sid, Int: r.Pct(80)}
 	default:
-		s := sh.stores[r.Intn(len(sh.stores))]
+		// never the tombstone store: mockcluster.SetStoreDown/Up would put its state back to Up
+		var live []store
+		for _, x := range sh.stores {
+			if !x.Tomb {
+				live = append(live, x)
+			}
+		}
+		s := live[r.Intn(len(live))]
 		return op{K: "store", StID: s.ID, Down: r.Pct(55)}
 	}
 }
@@ -496,7 +503,7 @@ func runCase(in caseIn, r *rng.R, nops int, malformed bool) caseRec {
 		}
 		return c
 	}
-	sh := &shadow{c: in.Boot.C, stores: in.Boot.Stores, regs: in.Boot.Regions}
+	sh := &shadow{c: in.Boot.C, stores: append([]store(nil), in.Boot.Stores...), regs: append([]region(nil), in.Boot.Regions...)}
 	nextRID := uint64(100)
 	for k := 0; k < nops; k++ {
 		if st, id, ok := parseServed(c.Obs[len(c.Obs)-1]); ok {
@@ -513,7 +520,7 @@ func runCase(in caseIn, r *rng.R, nops int, malformed bool) caseRec {
 				sh.c = o.C
 			}
 		case "layout":
-			sh.regs = o.L
+			sh.regs = append([]region(nil), o.L...)
 		case "report":
 			for i := range sh.regs {
 				if sh.regs[i].ID == o.RID {
